@@ -37,6 +37,9 @@ pub struct Cfg {
     pub disk: bool,
     pub mem_lz4: bool,
     pub batch_size: usize,
+    /// on disk: evict the cached columns after the last flush, so that SELECT reads them back from
+    /// the partition files (lz4_or_pco_decode on load when mem_lz4 is off, LZ4/Pco operators otherwise)
+    pub evict: bool,
 }
 
 /// how a batch column is handed over
@@ -57,11 +60,15 @@ pub struct Batch {
 }
 
 fn cfg_sx(c: &Cfg) -> Sx {
-    Sx::l(vec![Sx::a(if c.disk { "disk" } else { "mem" }), Sx::boolean(c.mem_lz4), Sx::int(c.batch_size)])
+    let mut v = vec![Sx::a(if c.disk { "disk" } else { "mem" }), Sx::boolean(c.mem_lz4), Sx::int(c.batch_size)];
+    if c.evict {
+        v.push(Sx::a("evict"));
+    }
+    Sx::l(v)
 }
 fn parse_cfg(x: &Sx) -> Cfg {
     let l = x.items();
-    Cfg { disk: l[0].atom() == "disk", mem_lz4: l[1].as_bool(), batch_size: l[2].as_usize() }
+    Cfg { disk: l[0].atom() == "disk", mem_lz4: l[1].as_bool(), batch_size: l[2].as_usize(), evict: l.len() > 3 }
 }
 fn batch_sx(b: &Batch) -> Sx {
     Sx::l(vec![
@@ -409,6 +416,9 @@ fn run_table(cfg: &Cfg, segs: &[Vec<Batch>], colnames: &[String], tables: &[Vec<
                 if cfg.disk && (k + 1 < nseg || nseg == 1) {
                     db.force_flush();
                 }
+            }
+            if cfg.disk && cfg.evict {
+                db.evict_cache();
             }
             let quoted: Vec<String> = colnames.iter().map(|c| format!("\"{}\"", c)).collect();
             let q = format!("SELECT {} FROM t", quoted.join(", "));
@@ -775,10 +785,12 @@ impl Suite for Api {
         let mut cases = vec![];
         for i in 0..n_cases {
             let mut r = r0.fork(i as u64);
+            let disk = r.chance(2, 5);
             let cfg = Cfg {
-                disk: r.chance(2, 5),
+                disk,
                 mem_lz4: r.chance(1, 2),
                 batch_size: *r.pick(&[1024usize, 1024, 1024, 8, 16, 64]),
+                evict: disk && r.chance(1, 2),
             };
             let ncols = r.usize(1, 4);
             let tys = ["int", "int", "float", "str", "str", "mixed"];
@@ -975,9 +987,11 @@ impl Suite for Api {
                 };
                 let diff = first_diff(e, &got);
                 let sig = diff.as_ref().map(|_| format!("api-{}:{}:{}", diff_signature(e, &got), fmt, tag));
+                // release profile: overflow wraps where the (dev-profile) model panics
+                let model_ok = cfg!(debug_assertions) || !(tag.contains("min-is-i64-MIN") || tag.contains("increasing-step-exceeds"));
                 outs.push(Outcome {
-                    model: if fmt == "rows" { Some("api_table_col".into()) } else { None },
-                    model_input: if fmt == "rows" { Some(model_input.clone()) } else { None },
+                    model: if fmt == "rows" && model_ok { Some("api_table_col".into()) } else { None },
+                    model_input: if fmt == "rows" && model_ok { Some(model_input.clone()) } else { None },
                     impl_out: Some(cells_sx(&got)),
                     oracle: diff.map(|d| format!("column {} ({} format): {}", c, fmt, d)),
                     signature: sig,
@@ -1040,7 +1054,8 @@ impl Suite for Csv {
         let mut cases = vec![];
         for i in 0..n_cases {
             let mut r = r0.fork(i as u64);
-            let cfg = Cfg { disk: r.chance(1, 3), mem_lz4: r.chance(1, 2), batch_size: *r.pick(&[1024usize, 1024, 8, 64]) };
+            let disk = r.chance(1, 3);
+            let cfg = Cfg { disk, mem_lz4: r.chance(1, 2), batch_size: *r.pick(&[1024usize, 1024, 8, 64]), evict: disk && r.chance(1, 2) };
             let rows = match r.below(6) {
                 0 => *r.pick(&[1usize, 7, 8, 9, 63, 64, 65]),
                 1 => r.usize(100, 300),
@@ -1192,6 +1207,9 @@ impl Suite for Csv {
                     Err(_) => return Err(Fail::Hang("load_csv did not complete within 30 s".into())),
                     Ok(Err(e)) => return Err(Fail::Error(format!("load_csv: {}", e))),
                     Ok(Ok(())) => {}
+                }
+                if cfg2.disk && cfg2.evict {
+                    db.evict_cache();
                 }
                 let quoted: Vec<String> = colnames2.iter().map(|c| format!("\"{}\"", c)).collect();
                 let q = format!("SELECT {} FROM t", quoted.join(", "));
